@@ -394,3 +394,73 @@ Theorem C03_tree_appends_split :
     Dom.DomSpec.run_from d (TreeSplitTable.append_ops target (pre ++ [(sp1, a); (sp2, b)] ++ post)).
 Proof. exact TreeSplitTable.run_appends_split. Qed.
 Print Assumptions C03_tree_appends_split.
+
+(* ------------------------------------------------------------------------------------------------------------
+   The `regular` hypotheses of the default-mode theorems above, DISCHARGED (TokIR/BulkTerm.v, Inst/InstBulkTerm.v): the
+   interpreter over the chunked queue in the tokenizer's default mode (exact_errors = false: bulk reads, SIMD scan)
+   never runs out of fuel - neither in a feed call nor in end() or its EOF loop - when the fuel meets the explicit bound
+   of Props/C04.v computed from what is unread in the start machine, the chunks and the text script pauses can inject.
+   Proof: one default-mode step is n >= 1 exact-mode steps (BulkSim.step_sim), a run that has ended ends the same way
+   with more fuel, so the fast run needs no more fuel than the slow one; the EOF loops run in lock step; the exact-mode
+   chunked interpreter is the reference one (QueueSim.v), which terminates within the bound (Termination.v). *)
+From HV Require Inst.InstBulkTerm.
+
+Theorem C03_default_mode_run_is_regular :
+  forall ent c1 sk fuel inj chunks (m : mach hstate queue) log,
+  wfq (mq m) -> InstTermination.HtmlTI (absm qflat m) ->
+  (InstTermination.html_fuel (InstTermination.html_unread (absm qflat m) + length (concat chunks) +
+                              length chunks * (50 * length inj)) <= fuel)%nat -> (4 <= fuel)%nat ->
+  regular log -> regular (snd (drive_chunked html_flavour false html_table html_simd ent c1 sk fuel inj chunks m log)).
+Proof. exact InstBulkTerm.html_default_regular. Qed.
+Print Assumptions C03_default_mode_run_is_regular.
+
+Theorem C03_default_mode_against_reference_total :
+  forall ent c1 sk fuel inject chunks (m : mach hstate queue) log,
+  wfq (mq m) -> InstTermination.HtmlTI (absm qflat m) ->
+  (InstTermination.html_fuel (InstTermination.html_unread (absm qflat m) + length (concat chunks) +
+                              length chunks * (50 * length inject)) <= fuel)%nat -> (4 <= fuel)%nat ->
+  regular log ->
+  let rf := drive_chunked html_flavour false html_table html_simd ent c1 sk fuel inject chunks m log in
+  exists k, forall j,
+    let rs := drive_flat html_flavour true html_table html_simd ent c1 sk (k + j) inject chunks
+                (mkmach (mc m) (qflat (mq m)) (mout m) (mcons m)) log in
+    snd rs = snd rf /\ obs (mout (fst rs)) = obs (mout (fst rf)) /\ ceq (mc (fst rs)) (mc (fst rf)) /\
+    mq (fst rs) = qflat (mq (fst rf)) /\ mcons (fst rs) = mcons (fst rf).
+Proof. exact InstBulkTerm.html_bulk_chunked_reference_total. Qed.
+Print Assumptions C03_default_mode_against_reference_total.
+
+(* one input, any start state, any sink script, injected text: nothing but the fuel bound is left *)
+Theorem C03_default_mode_is_reference_up_to_obs_total :
+  forall ent c1 sk inject s0 last input fuel,
+  (InstTermination.html_fuel (length input + 50 * length inject) <= fuel)%nat -> (4 <= fuel)%nat ->
+  let fast := drive_chunked html_flavour false html_table html_simd ent c1 sk fuel inject [input]
+                (mkmach (init_cfg s0 last false) [] [] 0%N) [] in
+  exists fuel0, forall fuel', (fuel0 <= fuel')%nat ->
+    let ref := drive_flat html_flavour true html_table html_simd ent c1 sk fuel' inject [input]
+                 (mkmach (init_cfg s0 last false) [] [] 0%N) [] in
+    obs (mout (fst fast)) = obs (mout (fst ref)) /\ snd fast = snd ref.
+Proof. exact InstBulkTerm.html_default_mode_is_reference_up_to_obs_total. Qed.
+Print Assumptions C03_default_mode_is_reference_up_to_obs_total.
+
+(* chunk independence in default mode from a fresh tokenizer: the fuel bounds replace `regular`; the all_done hypotheses
+   (no genuine panic value, no driver pause limit in the default-mode logs) remain *)
+Theorem C03_default_mode_chunking_independent_obs_total :
+  forall ent c1 sk fuel1 fuel2 inj cs1 cs2 s0 last,
+  all_nonempty cs1 -> all_nonempty cs2 -> cs1 <> [] -> cs2 <> [] -> concat cs1 = concat cs2 ->
+  (InstTermination.html_fuel (length (concat cs1) + length cs1 * (50 * length inj)) <= fuel1)%nat -> (4 <= fuel1)%nat ->
+  (InstTermination.html_fuel (length (concat cs2) + length cs2 * (50 * length inj)) <= fuel2)%nat -> (4 <= fuel2)%nat ->
+  let m := mkmach (init_cfg s0 last false) ([] : queue) [] 0%N in
+  let f1 := drive_chunked html_flavour false html_table html_simd ent c1 sk fuel1 inj cs1 m [] in
+  let f2 := drive_chunked html_flavour false html_table html_simd ent c1 sk fuel2 inj cs2 m [] in
+  all_done (tl (snd f1)) -> all_done (tl (snd f2)) ->
+  obs (mout (fst f1)) = obs (mout (fst f2)) /\ hd SSuspend (snd f1) = hd SSuspend (snd f2).
+Proof. exact InstBulkTerm.html_default_mode_chunking_independent_obs_total. Qed.
+Print Assumptions C03_default_mode_chunking_independent_obs_total.
+
+Example C03_default_mode_regular_example :
+  snd (drive_chunked html_flavour false html_table html_simd (fun _ => None) (fun _ => None)
+                     {| sk_resp := []; sk_foreign := false |} (InstTermination.html_fuel 12) []
+                     [[60;97;32;98;62;38]%N; [97;109;112;59;13;10]%N]
+                     (mkmach (init_cfg HData None false) [] [] 0%N) []) = [SSuspend; SSuspend; SSuspend].
+Proof. exact InstBulkTerm.default_regular_ex. Qed.
+Print Assumptions C03_default_mode_regular_example.
